@@ -19,7 +19,7 @@ PROP = 'C13'
 ENGINE = 'framing'
 LEVEL = 'exploration'
 INVARIANTS = ('delivery_mismatch', 'stalled_tail', 'invalid_frame_accepted', 'poll_exception', 'lost_message',
-              'spurious_disconnect', 'redial_failed', 'stale_event_dispatched', 'lost_event')
+              'spurious_disconnect', 'redial_failed', 'stale_event_dispatched', 'lost_event', 'graceful_tail_lost')
 for _i in INVARIANTS:
     INV_PROP[_i] = PROP
 RULE = ('one case = one seeded sequence of send / poll / deliver(n bytes) / corrupt operations on a client and an accepted '
@@ -232,6 +232,9 @@ class Frame(object):
                 if self.A.conn.state == CS.DISCONNECTED:
                     break
         w.cur = 0
+        graceful = (how == 'local' and self.A.conn.state == CS.CONNECTED and self.A.conn.getSendBufferSize() == 0 and
+                    not self.corrupted[0] and not self.corrupted[1] and self.B.conn.state == CS.CONNECTED and
+                    not self.B.sent)      # (nothing ever travelled the other way: the close is a FIN, not a reset)
         if self.A.conn.state != CS.DISCONNECTED:
             self.A.conn.disconnect()
         # the old connection's remains reach the acceptor (or not) before the new one is dialled
@@ -239,6 +242,13 @@ class Frame(object):
             for d in (0, 1):
                 self.net.deliver(self.pipes[d].pid, 0)
             self.poll(1)
+            self.poll(1)
+            if graceful and len(self.B.got) != len(self.A.sent):
+                # the dialler had handed every frame completely to its socket before it closed: TCP delivers those
+                # bytes ahead of the FIN, so the acceptor has the whole sequence - it must not drop what it read
+                # together with the end-of-stream
+                self.flag('graceful_tail_lost', 'the sender closed the connection after all of its %d messages had been handed to the socket completely; the receiver read the rest of the stream together with the FIN and delivered only %d of them' % (
+                    len(self.A.sent), len(self.B.got)), opno)
         self.epoch += 1
         self.stat('reconnect_' + how)
         for side in (self.A, self.B):
